@@ -161,7 +161,8 @@ def splitGopkgIn (path : Bytes) : Bytes × Bytes × Bool :=
   let rev := path.reverse
   let uns := hasSuffixB path (B "-unstable")
   let rev1 := if uns then rev.drop 9 else rev           -- i -= len("-unstable")
-  let digs := rev1.takeWhile isDigit                     -- path[i:…] scanned backwards
+  let digs := rev1.takeWhile isDigit                     -- path[i:end] scanned backwards
+  if digs.isEmpty then (path, [], false) else            -- i == end: no major number
   match rev1.dropWhile isDigit with
   | 118 :: 46 :: pre =>                                  -- path[i-1] == 'v' && path[i-2] == '.'
     let num := digs.reverse
